@@ -179,7 +179,7 @@ PROPS.update({
                  conc=("TestConcC05", "Invariant: no panic (shared workload).", 150, 6000, "TestSchedC08")),
     "C09": _pool("TestC09", "Profile 'rr' (ROUND_ROBIN, 1-6 channels, BIND picks with deadlines/cancellation, blocked picks observed with synctest.Wait). Oracle: assignments follow creation order cyclically while the composition is unchanged (first after a change re-synchronises); a pick is handed its channel only when READY or after its context ended; blocked picks are released by the READY report / swap / context end within one 100 ms poll period of virtual time; other calls obey the load rule.",
                  ">=4 in-order BIND assignments or a blocked BIND released by READY or by context end",
-                 conc=("TestConcC09", "Invariant: n*k round-robin BIND picks issued from several goroutines over n READY channels put exactly k on each channel.", 400, 14000)),
+                 conc=("TestConcC09", "Invariant: n*k round-robin BIND picks issued from several goroutines over n READY channels put exactly k on each channel.", 400, 14000, "TestSchedC09")),
     "C05": _pool("TestC05", "Profile 'hostile' (all feature flags random; nil / typed-nil / empty / non-struct request messages; locators that do not resolve, resolve to an empty list or to a non-string; picks and completions without the interceptor context; stale pickers with every conn down; failing and strict factories; empty address lists; nil / foreign / alternative configs; reports for unknown, removed and replacement conns; pool emptied by shutdowns). Oracle: recover() around every library entry - any panic is a violation; a request whose key cannot be extracted is never placed.",
                  "the history contains at least one hostile element (see the per-class labels)",
                  conc=("TestConcC05", "Invariant: no pick or completion panics under concurrency.", 300, 12000)),
